@@ -81,14 +81,12 @@ Connect == /\ IsEvent("connect")
 SendTo == /\ IsEvent("sendto")
           /\ sent' = sent \cup {[host |-> Ev.host, s |-> Ev.s, addr |-> Ev.addr, port |-> Ev.port]}
           /\ UNCHANGED <<cfgv, socks, rxs, lastId>>
-\* what the API reports must agree with what the wire has already shown (PortsRight, seen from the API side)
+\* what the API reports fills in what is still unknown (ephemeral port, address chosen by connect); it never
+\* replaces the binding the socket was given: C06 judges frames against the socket, not the API against itself
 Local == /\ IsEvent("local")
-         /\ LET k == <<Ev.host, Ev.s>>
-                ok == /\ socks[k].lport \in {0, Ev.port}
-                      /\ (socks[k].conn => socks[k].laddr \in {NoAddr, Ev.addr})
-            IN /\ (IF ok THEN TRUE ELSE IF Explain THEN PrintT(<<"FAILED", l, {"ports.local"}>>) ELSE FALSE)
-               /\ socks' = [socks EXCEPT ![k].lport = Ev.port,
-                                         ![k].laddr = IF socks[k].conn THEN Ev.addr ELSE @]
+         /\ LET k == <<Ev.host, Ev.s>> IN
+            socks' = [socks EXCEPT ![k].lport = IF @ = 0 THEN Ev.port ELSE @,
+                                   ![k].laddr = IF socks[k].conn /\ @ = NoAddr THEN Ev.addr ELSE @]
          /\ UNCHANGED <<cfgv, sent, rxs, lastId>>
 
 \* ------------------------------------------------------------------ packets
